@@ -22,6 +22,17 @@ CLASSES_FOR = {
 }
 
 
+def _bucket(tier):
+    from harness import bucket_standin
+    c, f = bucket_standin.search(tier)
+    return c, f, ('DynamicBucketDataset.__iter__: every length sequence over {1,2,3,6} up to length %d, '
+                  'parameter grid batch_size 1..3 x rate {0,.2,.5} x expiration {None,1,2,3} x max_buffered '
+                  '{None,1,2,4} x max_total_size {None,6,10} x drop modes' % (5 if tier == 'quick' else 7))
+
+
+EXTRA = {'C17': [('bounded-bucket-iter', _bucket)]}
+
+
 def known_finding_of(cls, mismatch, findings):
     for f in findings:
         for pat in f.get('native_patterns', []):
@@ -62,6 +73,10 @@ def main():
                         'bound': 'source lengths 0..6 and the parameter grid of harness/scenarios.py',
                         'failures': (unexplained or fl)[:5],
                         'known_finding_cases': len(fl) - len(unexplained)})
+        for name, fn in EXTRA.get(a.prop, []):
+            cases, fails, bound = fn(a.tier)
+            out.append({'name': name, 'kind': 'bounded', 'cases': cases, 'bound': bound, 'failures': fails[:5],
+                        'known_finding_cases': 0})
         print(json.dumps({'standins': out}))
     except BaseException:  # noqa
         print(json.dumps({'standins': out, 'error': traceback.format_exc()[-800:]}))
